@@ -188,6 +188,15 @@ pub fn run(tape: &[u8], ctx: &mut Ctx) {
 		if ctx.want_sample {
 			ctx.sample = Some(serde_json::json!({"direction": if by_apache { "apache-writes" } else { "reference-writes" }, "schema": trunc(&h.case.json, 400), "codec": h.codec.name(), "n_values": want.len(), "writer": trunc(&meta_note, 400), "file_len": bytes.len()}));
 		}
+		// apache re-serialises the schema into the header: if that text no longer denotes
+		// the same schema (an apache bug), the case says nothing about the crate
+		if by_apache {
+			let same = ref_parse(&bytes).ok().and_then(|f| f.meta("avro.schema").map(|m| String::from_utf8_lossy(m).to_string())).and_then(|j| parse_json_schema(&j).ok()).map(|m| normalize_first_occurrence(&m) == normalize_first_occurrence(&h.case.schema)).unwrap_or(false);
+			if !same {
+				ctx.label("apache:header-schema-differs(skipped)");
+				return;
+			}
+		}
 		// sanity: the reference parser reads its own / apache's file
 		match ref_parse(&bytes).and_then(|f| ref_values(&env, &h.case.schema, &f)) {
 			Ok(vals) if vals.len() == want.len() && vals.iter().zip(&want).all(|(a, b)| a.same(b)) => {}
